@@ -215,10 +215,30 @@ def run_pipeline(name, binp, opsfile, workdir, tag, timeout=3000):
     env.setdefault('GOMEMLIMIT', '8GiB')
     env['VERIF_HARNESS'] = name
     env['VERIF_WORKDIR'] = workdir
-    with open(opsfile) as fi, open(real, 'w') as fo:
-        p = subprocess.run(st.get('wrap', []) + [binp, 'run'], stdin=fi, stdout=fo, stderr=subprocess.PIPE, env=env, timeout=timeout)
-    if p.returncode != 0:
-        res['errors'].append(f'harness run exited {p.returncode}: ' + p.stderr.decode(errors='replace')[-1500:])
+    if st.get('strace'):
+        raw = os.path.join(workdir, f'{tag}.raw.txt')
+        trace = os.path.join(workdir, f'{tag}.strace.txt')
+        rundir = os.path.join(workdir, f'{tag}.dir')
+        shutil.rmtree(rundir, ignore_errors=True)
+        os.makedirs(rundir)
+        env['VERIF_WORKDIR'] = rundir
+        with open(opsfile) as fi, open(raw, 'w') as fo:
+            p = subprocess.run(['strace', '-f', '-y', '-e', 'trace=openat,write,pwrite64,close,rename,renameat,renameat2,unlink,unlinkat,newfstatat',
+                                '-o', trace, binp, 'run'], stdin=fi, stdout=fo, stderr=subprocess.PIPE, env=env, timeout=timeout)
+        if p.returncode != 0:
+            res['errors'].append(f'harness run (strace) exited {p.returncode}: ' + p.stderr.decode(errors='replace')[-1500:])
+        try:
+            merge_strace(raw, trace, real)
+        except Exception as e:  # noqa
+            res['errors'].append(f'strace merge failed: {e!r}')
+            shutil.copy(raw, real)
+        shutil.rmtree(rundir, ignore_errors=True)
+        os.unlink(trace)
+    else:
+        with open(opsfile) as fi, open(real, 'w') as fo:
+            p = subprocess.run(st.get('wrap', []) + [binp, 'run'], stdin=fi, stdout=fo, stderr=subprocess.PIPE, env=env, timeout=timeout)
+        if p.returncode != 0:
+            res['errors'].append(f'harness run exited {p.returncode}: ' + p.stderr.decode(errors='replace')[-1500:])
     with open(real) as fi, open(model, 'w') as fo:
         p = subprocess.run([DRIVER, 'model', name], stdin=fi, stdout=fo, stderr=subprocess.PIPE, timeout=timeout)
     if p.returncode != 0:
@@ -228,6 +248,113 @@ def run_pipeline(name, binp, opsfile, workdir, tag, timeout=3000):
     if p.returncode != 0:
         res['errors'].append(f'driver mon exited {p.returncode}: ' + p.stderr.decode(errors='replace')[-500:])
     return res
+
+
+_REC = re.compile(r'/(constant-recordings/)?(\d{8}\.\d{6}\.\d{3})\.cptv(\.temp\.tmp|\.temp)?$')
+
+
+def merge_strace(raw, trace, out):
+    """Attribute the file-system calls seen by strace to the op lines of the harness output.
+
+    The harness issues stat("/verif-marker/<k>") before its k-th op line.  File names are
+    canonicalised to roles: [c]{T,S,F}<index of the time stamp in its directory, by first appearance
+    within the case>.  Consecutive writes to the same role are collapsed."""
+    pending = {}
+    events = {}          # marker k -> list of (kind, path[, path2])
+    cur = 0
+    created = set()
+    fdkind = {}
+    def handle(line):
+        nonlocal cur
+        m = re.match(r'newfstatat\(.*?"/verif-marker/(\d+)"', line)
+        if m:
+            cur = int(m.group(1)); return
+        if ' = -1 ' in line and not line.startswith('unlinkat') and not line.startswith('renameat'):
+            return
+        ev = None
+        m = re.match(r'openat\([^,]*, "([^"]*)", ([A-Z_|]+).* = (\d+)<', line)
+        if m and 'O_CREAT' in m.group(2):
+            ev = ('creat', m.group(1))
+            if m.group(1).endswith('.cptv.temp'):
+                # go-cptv creates the output file twice; the first descriptor (FileWriter.f) is never
+                # used or closed by the library: a finaliser closes it at a GC-dependent time
+                first = m.group(1) not in created
+                created.add(m.group(1))
+                fdkind[m.group(3)] = 'leak' if first else 'main'
+            else:
+                fdkind[m.group(3)] = 'main'
+        m2 = re.match(r'(write|pwrite64)\(\d+<([^>]*)>', line)
+        if m2:
+            ev = ('write', m2.group(2))
+        m3 = re.match(r'close\((\d+)<([^>]*)>', line)
+        if m3:
+            if fdkind.pop(m3.group(1), 'reader') != 'main':
+                return      # leaked descriptor, or a descriptor that was opened read-only
+            ev = ('close', m3.group(2))
+        m4 = re.match(r'unlink(?:at)?\((?:[^,]*, )?"([^"]*)"', line)
+        if m4 and ' = 0' in line:
+            ev = ('unlink', m4.group(1))
+        m5 = re.match(r'rename(?:at2?)?\((?:[^,]*, )?"([^"]*)", (?:[^,]*, )?"([^"]*)"', line)
+        if m5 and ' = 0' in line:
+            ev = ('rename', m5.group(1), m5.group(2))
+        if ev and any(_REC.search(x) for x in ev[1:]):
+            events.setdefault(cur, []).append(ev)
+    with open(trace, errors='replace') as f:
+        for line in f:
+            m = re.match(r'(\d+)\s+(.*)$', line.rstrip('\n'))
+            if not m:
+                continue
+            pid, rest = m.group(1), m.group(2)
+            if rest.endswith('<unfinished ...>'):
+                pending[pid] = rest[:-len('<unfinished ...>')]
+                continue
+            r = re.match(r'<\.\.\. \w+ resumed>(.*)$', rest)
+            if r:
+                rest = pending.pop(pid, '') + r.group(1)
+            handle(rest)
+    k = 0
+    idx = {}
+    casedir = None
+    def role(path):
+        m = _REC.search(path)
+        if not m:
+            return 'other:' + os.path.basename(path)
+        d = 'c' if m.group(1) else ''
+        key = (d, m.group(2))
+        if key not in idx:
+            idx[key] = sum(1 for kk in idx if kk[0] == d)
+        kind = {None: 'F', '.temp': 'T', '.temp.tmp': 'S'}[m.group(3)]
+        return f'{d}{kind}{idx[key]}'
+    with open(raw) as fi, open(out, 'w') as fo:
+        lines = fi.read().splitlines()
+        i = 0
+        while i < len(lines):
+            line = lines[i]
+            if line.startswith('> '):
+                k += 1
+                if line.startswith('> case '):
+                    idx = {}
+                fo.write(line + '\n')
+                last = None
+                if line.startswith('> case '):
+                    casedir = None
+                for ev in events.get(k, []):
+                    # descriptors of recordings abandoned at a previous case's simulated crash are closed
+                    # by finalisers later: only calls inside this case's own directory belong to it
+                    bd = os.path.dirname(ev[1]).replace('/constant-recordings', '')
+                    if casedir is None and ev[0] == 'creat':
+                        casedir = bd
+                    if bd != casedir:
+                        continue
+                    txt = 'sys ' + ev[0] + ' ' + ' '.join(role(x) for x in ev[1:])
+
+                    if ev[0] == 'write' and txt == last:
+                        continue
+                    last = txt
+                    fo.write('< ' + txt + '\n')
+            else:
+                fo.write(line + '\n')
+            i += 1
 
 
 def project(lines, rx):
